@@ -31,8 +31,9 @@ thread_local! {
 pub fn gen_input(rng: &mut Rng, valid_share: bool) -> (Vec<u8>, String) {
     let k = rng.below(100);
     let small_valid = |rng: &mut Rng| -> Option<(Vec<u8>, &'static str)> {
-        match rng.below(5) {
+        match rng.below(6) {
             4 => jxlgen::vardct::random_vardct_jpeg_image(rng, 96).map(|(b, _)| (b, "vardct-jbrd")),
+            5 => jxlgen::hostile::preview_carrier_modular(rng).map(|b| (b, "preview")),
             0 | 1 => {
                 let opts = jxlgen::imggen::ImgOpts { size_class: *rng.pick(&[0u32, 1, 1, 2]), max_dim: 200, ..Default::default() };
                 jxlgen::imggen::gen_modular_image(rng, &opts).map(|i| (i.bytes, "modular"))
@@ -80,6 +81,18 @@ pub fn gen_input(rng: &mut Rng, valid_share: bool) -> (Vec<u8>, String) {
                 c = format!("regression-{}", jxlgen::hostile::mutate_bytes(rng, &mut b, None));
             }
             return (b, c);
+        }
+    }
+    if k < 62 {
+        // arbitrary profile bytes (structured, broken tag tables, every short length, truncated real
+        // profiles) carried by a well-formed ICC stream in an otherwise valid image
+        let bad = rng.chance(1, 3);
+        let (profile, pclass) = crate::c18::gen_profile(rng, false, bad);
+        if profile.len() <= 70_000 {
+            if let Some(b) = jxlgen::hostile::icc_carrier_modular(rng, &profile) {
+                let fam = pclass.split(':').next().unwrap_or("").to_string();
+                return (b, format!("icc-carrier-{fam}"));
+            }
         }
     }
     if k < 70 {
@@ -319,14 +332,18 @@ pub fn run_script(rng: &mut Rng, bytes: &[u8], pool: JxlThreadPool) -> ScriptObs
                         Vec::new()
                     }
                 };
-                let icc: Vec<u8> = match rng.below(3) {
+                let icc: Vec<u8> = match rng.below(4) {
                     0 => ricc,
                     1 => {
                         let mut v = ricc;
                         jxlgen::hostile::mutate_bytes(rng, &mut v, None);
                         v
                     }
-                    _ => (0..rng.urange(0, 300)).map(|_| rng.next_u32() as u8).collect(),
+                    2 => (0..rng.urange(0, 300)).map(|_| rng.next_u32() as u8).collect(),
+                    _ => {
+                        let bad = rng.chance(1, 3);
+                        crate::c18::gen_profile(rng, false, bad).0
+                    }
                 };
                 let r = image.request_icc(&icc);
                 note(&mut o, r.is_ok(), r.err().map(|e| e.to_string()));
